@@ -286,11 +286,33 @@ fn gen_custom_type_method(strct: &ast::CustomType, m: &ast::Method) -> Item {
 
     let (return_tokens, maybe_into) = if let Some(return_type) = &m.return_type {
         if let ast::TypeName::Result(ok, err, StdlibOrDiplomat::Stdlib) = return_type {
-            let ok = ok.to_syn();
-            let err = err.to_syn();
+            // An `Option<T>` of a non-pointer inside a Result arm has to cross as `DiplomatOption<T>`
+            // (that is what every backend declares); std's `Option<T>` has no defined layout.
+            let needs_conversion =
+                |ty: &ast::TypeName| matches!(ty, ast::TypeName::Option(..)) && !ty.is_ffi_safe();
+            let ok_conversion = if needs_conversion(ok) {
+                quote! { .map(|v| v.into()) }
+            } else {
+                quote! {}
+            };
+            let err_conversion = if needs_conversion(err) {
+                quote! { .map_err(|v| v.into()) }
+            } else {
+                quote! {}
+            };
+            let ok = if needs_conversion(ok) {
+                ok.ffi_safe_version().to_syn()
+            } else {
+                ok.to_syn()
+            };
+            let err = if needs_conversion(err) {
+                err.ffi_safe_version().to_syn()
+            } else {
+                err.to_syn()
+            };
             (
                 quote! { -> diplomat_runtime::DiplomatResult<#ok, #err> },
-                quote! { .into() },
+                quote! { #ok_conversion #err_conversion .into() },
             )
         } else if let ast::TypeName::StrReference(_, _, StdlibOrDiplomat::Stdlib)
         | ast::TypeName::StrSlice(.., StdlibOrDiplomat::Stdlib)
